@@ -99,7 +99,9 @@ impl Reducible for Case {
             out
         }
         let mut out: Vec<Case> = red(&self.e).into_iter().map(|e| Case { e, pos: self.pos }).collect();
-        if self.pos != Pos::ConstShort {
+        // (sizeof of an element is only written in statements: the grammar of the constant
+        // calculator takes a type or a plain name)
+        if self.pos != Pos::ConstShort && !print(&self.e, 0).contains('[') {
             out.push(Case { e: self.e.clone(), pos: Pos::ConstShort });
         }
         out
@@ -359,7 +361,7 @@ pub fn gen_expr(g: &mut G, depth: u32, ex: &Excl, in_tern: bool) -> CE {
     if depth == 0 || g.chance(1, 5) {
         if g.chance(1, 12) {
             // arrays of one element too: an array is not told from a pointer or a scalar by its size
-            let forms: [(&str, i64); 8] = [
+            let forms: [(&str, i64); 10] = [
                 ("sizeof(char)", 1),
                 ("sizeof(short)", 2),
                 ("sizeof(int)", 2),
@@ -368,6 +370,8 @@ pub fn gen_expr(g: &mut G, depth: u32, ex: &Excl, in_tern: bool) -> CE {
                 ("sizeof(zz1)", 1),
                 ("sizeof(zzs1)", 2),
                 ("sizeof(zzc)", 1),
+                ("sizeof(zzp)", 6),
+                ("sizeof(char*)", 2),
             ];
             let (t, v) = forms[g.below(forms.len())];
             return CE::Sizeof(t.to_string(), v);
@@ -420,7 +424,44 @@ pub fn gen_case(g: &mut G, ex: &Excl) -> Case {
         8 => Pos::AsmSize,
         _ => Pos::Statement,
     };
+    let mut e = e;
+    if pos == Pos::Statement {
+        element_sizeofs(g, &mut e);
+    }
     Case { e, pos }
+}
+
+/// in a statement `sizeof` may also name an element: the size of the element, not of the array
+fn element_sizeofs(g: &mut G, e: &mut CE) {
+    match e {
+        CE::Sizeof(t, v) => {
+            let elem: Option<(&str, i64)> = match t.as_str() {
+                "sizeof(zz8)" => Some(("sizeof(zz8[0])", 1)),
+                "sizeof(zz16)" => Some(("sizeof(zz16[2])", 2)),
+                "sizeof(zz1)" => Some(("sizeof(zz1[0])", 1)),
+                "sizeof(zzs1)" => Some(("sizeof(zzs1[0])", 2)),
+                "sizeof(zzp)" => Some(("sizeof(zzp[1])", 2)),
+                _ => None,
+            };
+            if let Some((t2, v2)) = elem {
+                if g.chance(1, 2) {
+                    *t = t2.to_string();
+                    *v = v2;
+                }
+            }
+        }
+        CE::Bin(_, a, b) => {
+            element_sizeofs(g, a);
+            element_sizeofs(g, b);
+        }
+        CE::Tern(c, a, b) => {
+            element_sizeofs(g, c);
+            element_sizeofs(g, a);
+            element_sizeofs(g, b);
+        }
+        CE::Neg(a) | CE::LNot(a) | CE::BNot(a) | CE::Paren(a) => element_sizeofs(g, a),
+        _ => {}
+    }
 }
 
 fn has_two_prec_levels(e: &CE) -> bool {
@@ -469,7 +510,7 @@ fn strip_blanks(t: &str) -> String {
 
 pub fn source(case: &Case) -> String {
     let t = print(&case.e, 0);
-    let pre = "char zz8[5];\nshort zz16[3];\nchar zz1[1];\nshort zzs1[1];\nchar zzc;\n";
+    let pre = "char zz8[5];\nshort zz16[3];\nchar zz1[1];\nshort zzs1[1];\nchar zzc;\nchar *zzp[3];\n";
     match case.pos {
         Pos::ConstShort => format!("{}const short v = {};\nvoid main() {{ }}\n", pre, t),
         Pos::ConstChar => format!("{}const char v = {};\nvoid main() {{ }}\n", pre, t),
